@@ -1,10 +1,11 @@
 """C06 bounded priority queue: scenario generator, trace hand-over to the model driver (model_cases), and an
 independent python oracle that judges the logged trace of the real MemoryBoundedQueue directly."""
 PROP = "C06"
-AREAS = []
+AREAS = ["queue"]
 THEOREMS = ["exactly_once", "history_faithful", "priority", "size_accounting", "take_no_underflow", "bounded",
             "closed_refuses", "no_admit_after_close", "closed_drains_then_none", "pull_none_only_when_drained",
-            "closed_nobody_blocked", "threads_distinct", "push_wait_nonempty", "no_lost_wakeup", "replay_sound"]
+            "closed_nobody_blocked", "threads_distinct", "push_wait_nonempty", "no_lost_wakeup", "replay_sound",
+            "source_has_model_shape"]
 RULE = ("trace validation: each case is a scenario (scheduler seed, capacity, close mode, 1..16 thread scripts of "
         "push/try_push/pull/try_pull/close/sleep with item = (priority, id), Ord by priority only so ties are real) run "
         "on the real MemoryBoundedQueue with the H1 perturbation scheduler; the H2 log (written under the queue lock) "
@@ -174,6 +175,32 @@ def _gen_case(rng):
     return "run %d %x %s %s" % (seed, cap, mode, " ".join(",".join(s) for s in scripts))
 
 
+def _gen_race(rng):
+    """close racing threads that are about to block: consumers pulling from an empty queue, or producers pushing into
+    a full one, with the close issued by a script or by the harness after 0..few ms - the schedules on which a wake-up
+    lost between a waiter's predicate test and its wait leaves a thread blocked on a closed queue"""
+    seed = rng.randint(1, (1 << 32) - 1)
+    if rng.random() < 0.5:
+        cap = rng.choice([1, 2, 5, 100])
+        t = rng.choice([2, 3, 4, 8, 15])
+        scripts = [["G"] * rng.choice([1, 1, 2]) for _ in range(t)]
+        if rng.random() < 0.5:
+            scripts.append(["P0:1"])
+    else:
+        cap = rng.choice([1, 2, 3])
+        t = rng.choice([2, 3, 4, 8, 15])
+        scripts = [["P%d:%x" % (rng.randint(-1, 1), cap)] * rng.choice([1, 2, 3]) for _ in range(t)]
+        if rng.random() < 0.5:
+            scripts.append(["G"])
+    if rng.random() < 0.5:
+        scripts.append((["Z%d" % rng.choice([1, 1, 5])] if rng.random() < 0.5 else []) + ["C"])
+        mode = "n" if rng.random() < 0.3 else "d%d" % rng.choice([50, 300])
+    else:
+        mode = "d%d" % rng.choice([0, 0, 1, 1, 2, 5])
+    rng.shuffle(scripts)
+    return "run %d %x %s %s" % (seed, cap, mode, " ".join(",".join(s) for s in scripts))
+
+
 def gen_cases(rng, tier):
     n = 300 if tier == "quick" else 20000
     fixed = [
@@ -183,7 +210,7 @@ def gen_cases(rng, tier):
         "run 5 5 j P1:3,P2:3,P2:6 G,G G",
         "run 9 1 d300 P0:1,P0:1,P0:1,P0:1 P0:1,P0:1,P0:1 G,G G,G,G,G,G G",   # all ties
     ]
-    return fixed + [_gen_case(rng) for _ in range(n)]
+    return fixed + [_gen_case(rng) for _ in range(n)] + [_gen_race(rng) for _ in range(n // 2)]
 
 
 # ------------------------------------------------------------------------------------------------ plumbing
@@ -392,7 +419,7 @@ def _oracle(case, impl):
 
 
 def search(ctx, budget):
-    cases = [_gen_case(ctx.rng) for _ in range(200 * budget)]
+    cases = [(_gen_race if i % 2 else _gen_case)(ctx.rng) for i in range(200 * budget)]
     res = vlib.run_impl(PROP, cases)
     found = [(c, i, oracle(c, i)) for c, i in zip(cases, res) if oracle(c, i)]
     return found, len(cases)
